@@ -6,6 +6,8 @@ import JSight.Model.IncName
 import JSight.Model.Descr
 import JSight.Model.Location
 import JSight.Model.OMap
+import JSight.Model.AllOf
+import JSight.Model.Registry
 /-!
 Line-protocol driver around the hand-written models (core-only imports, so it links as a `lean_exe`).
 One request per line `op hexarg…`; one response line per request; the line `flush` flushes stdout.
@@ -72,6 +74,38 @@ def handle (line : String) : String :=
       | _ => m
     let m := (ops.filter (· != "")).foldl step ({} : OMap String String)
     "ok " ++ String.intercalate "," (m.entries.map fun (k, v) => k ++ "=" ++ v.getD "<nil>") ++ " len=" ++ toString m.len
+  | "allof" :: args =>
+    -- args: t:<name>:<base,base>:<key,key> …  then  o:<name,name,…> (processing order = catalog order)
+    let nums (x : String) : List Nat := (x.splitOn ",").filterMap (·.toNat?)
+    let types : AllOf.Store := args.filterMap fun a =>
+      match a.splitOn ":" with
+      | ["t", n, bs, ks] => n.toNat?.map fun n => (n, { bases := nums bs, kids := (nums ks).map fun k => { key := k } })
+      | _ => none
+    let order : List Nat := (args.filterMap fun a => match a.splitOn ":" with | ["o", ns] => some (nums ns) | _ => none).flatten
+    match AllOf.processStore 200 order types [] with
+    | .error (.override k b) => "err override " ++ toString k ++ " " ++ toString b
+    | .error (.notFound b) => "err notfound " ++ toString b
+    | .error (.notObject b) => "err notobject " ++ toString b
+    | .error .fuel => "fault fuel"
+    | .ok (st, _) =>
+      "ok " ++ String.intercalate " " (st.map fun (n, sc) =>
+        toString n ++ "=" ++ String.intercalate "," (sc.kids.map fun p => toString p.key ++ "/" ++ (match p.from_ with | some b => toString b | none => "-")))
+  | "reg" :: args =>
+    -- args: <coll>:<key> … with coll ∈ t e s g m u i ; ids are positions
+    let collOf (c : String) : Option Reg.Coll := match c with
+      | "t" => some .types | "e" => some .enums | "s" => some .servers | "g" => some .tags
+      | "m" => some .macros | "u" => some .urls | "i" => some .interactions | _ => none
+    let ds : List Reg.Decl := (args.filter (· != "")).zipIdx.filterMap fun (a, i) =>
+      match a.splitOn ":" with
+      | [c, k] => match collOf c, k.toNat? with
+        | some c, some k => some { coll := c, key := k, id := i }
+        | _, _ => none
+      | _ => none
+    match Reg.addAll [] ds with
+    | .error i => "err " ++ toString i
+    | .ok es =>
+      let show1 (nm : String) (c : Reg.Coll) := nm ++ "=" ++ String.intercalate "," ((Reg.collection es c).map toString)
+      "ok " ++ String.intercalate " " [show1 "t" .types, show1 "e" .enums, show1 "s" .servers, show1 "g" .tags, show1 "i" .interactions]
   | _ => "bad-op"
 
 partial def loop (inp out : IO.FS.Stream) : IO Unit := do
